@@ -369,8 +369,16 @@ def main(argv):
         sys.path.insert(0, HERE)
         import props
         rec = json.load(open(replay))
-        print(json.dumps(props.replay(rec["property"], rec["obligation"], rec["function"], rec), indent=1, default=str))
-        return 0
+        if "function" in rec:
+            out = props.replay(rec.get("property", pid), rec.get("obligation", ""), rec["function"], rec)
+        else:
+            # record written by a bounded stand-in: {"name": "bounded:scenario:<scenario>", "what": ..., <failing input>}
+            inst = dict(rec)
+            inst["scenario"] = str(rec.get("name", "")).split(":")[-1]
+            out = props.replay(pid, rec.get("name", ""), "", inst)
+        print(json.dumps(out, indent=1, default=str))
+        # exit 1 when the failure reproduces on the current tree, 0 when it does not
+        return 1 if out.get("replayed") else 0
     try:
         return run_property(pid, tier, seed)
     except Exception:
